@@ -50,7 +50,8 @@
 (*       "mixed"     images 1 and 2 share a name in two directories, the   *)
 (*                   others have names of their own                        *)
 (*       "blanks"    distinct names with blanks / non-ASCII characters     *)
-(*    form = index into Forms, [addr, cwd, pub, spell]: image paths given   *)
+(*    form = index into Forms, [addr, cwd, pub, spell, opt]: opt = the      *)
+(*       tool's optional flag (-v / --verbose) present or absent; paths    *)
 (*       relative / absolute / "./x" / mixed within one list; the working  *)
 (*       directory is the images' directory or another one; the public     *)
 (*       key (-p) or authorization (-o) path relative, absolute, or in     *)
@@ -86,7 +87,7 @@ CONSTANTS Images,      \* set of images; an image is a set of areas [z, o, d]
           Forms,       \* sequence of [addr, cwd, pub]
           AltForm,     \* form index -> the form of every other invocation
           UnitLens,    \* size class -> sequence: unit id -> real length in bytes
-          Variant      \* "ok" | "reuse" | "leak" | "signpath" | "twopubs" | "fileorder" | "stale" | "tailtwice" | "byname" | "readcap" | "normpath"
+          Variant      \* "ok" | "reuse" | "leak" | "signpath" | "twopubs" | "fileorder" | "stale" | "tailtwice" | "byname" | "readcap" | "normpath" | "verbose"
 
 VARIABLES mode,
           size,        \* the size class Env picked ("none": not yet)
@@ -269,6 +270,10 @@ SignI == /\ mode = "sign" /\ pc = "sign"
                                        ELSE IF Variant = "normpath"
                                                /\ Forms[FormOf(run)].spell = "dotdot-link-decoy"
                                        THEN 99
+                                       \* "verbose": the optional flag switches on a code path that
+                                       \* disturbs what gets hashed
+                                       ELSE IF Variant = "verbose" /\ Forms[FormOf(run)].opt # "none"
+                                       THEN 98
                                        ELSE IF Variant = "byname"
                                        THEN Contents[LastNamed(NameOf(cur.imgs[idx]))]
                                        ELSE h]
